@@ -5,6 +5,7 @@ import (
 	"strings"
 
 	"github.com/junioryono/godi/v4/internal/vsched"
+	"github.com/junioryono/godi/v4/verifmc/kit"
 	"github.com/junioryono/godi/v4/verifmc/mc"
 )
 
@@ -367,6 +368,31 @@ func init() {
 							return keep
 						})
 					}})
+				}
+			}
+			// a disposable whose Close method waits for whatever the other goroutine is doing on the scope
+			// right now (a worker joining its background job): the in-flight operation must still finish
+			for _, closer := range []string{"close-scope", "close-ancestor", "close-provider", "cancel"} {
+				for _, op := range []string{"get-scoped", "get-transient", "get-group", "create-child"} {
+					for _, where := range []string{"s1", "s0", "singleton"} {
+						if where == "s0" && closer != "close-ancestor" && closer != "close-provider" {
+							continue
+						}
+						if where == "singleton" && closer != "close-provider" {
+							continue
+						}
+						sc := c13Scenario(closer, op, false)
+						sc.Name = strings.Replace(sc.Name, "close-vs-op/", "close-vs-op-joining-worker-"+where+"/", 1)
+						if where == "singleton" {
+							sc.Spec.Regs = append(sc.Spec.Regs, kit.Reg{ID: 8, Life: "singleton", Outs: []kit.Out{{T: "D4"}}, CloseJoins: true})
+						} else {
+							sc.Spec.Regs = append(sc.Spec.Regs, kit.Reg{ID: 8, Life: "scoped", Outs: []kit.Out{{T: "D4"}}, CloseJoins: true})
+							sc.Setup = append(sc.Setup, Op{Kind: "get", Scope: where, T: "D4"})
+						}
+						jobs = append(jobs, mc.Job{Name: sc.Name, Run: func(r *mc.Report) {
+							exploreScenario(r, sc, mc.Bounds{Preempt: pb}, c13OverlapOracle)
+						}})
+					}
 				}
 			}
 			jobs = append(jobs, twoProvJob("C13", depth4(tier)))
